@@ -309,7 +309,7 @@ def c10_derive(lines):
 def c10(ctx, rep):
     # c12: grammars without code blocks and state, rich in predicates, on failing inputs - the template variant without a
     # state store, where the error report is all there is to compare
-    run_corr(ctx, rep, [("c10", 400, 10000), ("c12", 250, 5000), ("c08", 250, 5000)], fields=["out", "val", "errs", "gs", "st", "cnt"],
+    run_corr(ctx, rep, [("c10", 400, 10000), ("c12", 250, 5000), ("pack", 20, 200), ("c08", 250, 5000)], fields=["out", "val", "errs", "gs", "st", "cnt"],
              ref_fields=["out", "val", "errs"], known_quirks=known_quirks_for("C10"), derive=c10_derive, emitted=(24, 300))
     from .props import same_on
     pairs = skipped = 0
@@ -513,6 +513,33 @@ def c06(ctx, rep):
             rep.violation("an option set changes the result: %s" % {k: v for k, v in corr.case_opts(l).items() if k in ("memo", "debug", "stats")},
                           {"case": l, "default_options": a, "with_options": b}, found=True)
     rep.cov["option_pairs_compared"] = pairs
+    # a Statistics collector that has been used before (ExprCnt not zero), no budget: still the same result
+    PRE = 1000
+    used, base_of = [], {}
+    for cid, l in rep.case_lines.items():
+        o = corr.case_opts(l)
+        if "~" in cid or o["maxexpr"] != 0 or corr.case_tmpl(l)[0]:
+            continue
+        t = set_opt(l, 2, "1", "PS") or l.replace("(case " + cid + " ", "(case " + cid + "~PS ", 1)
+        t2 = set_opt(t, 0, "0", "PS") if False else t
+        used.append(t2)
+        base_of[corr.case_id(t2)] = cid
+    used = used[: ctx.q(300, 4000)]
+    hosts_ps = {k: v + " -prestats %d" % PRE for k, v in ctx.hosts().items()}
+    impl3 = corr.run_impl(ctx.sc, hosts_ps, used, 3000)
+    cmp_ps = 0
+    for l in used:
+        cid = corr.case_id(l)
+        a, b = rep.impl_obs.get(base_of[cid], {}), impl3.get(cid, {})
+        if a.get("out") in corr.NONTERM or b.get("out") in corr.NONTERM or not a or not b:
+            continue
+        if corr.case_opts(rep.case_lines[base_of[cid]])["stats"] is False and corr.case_opts(rep.case_lines[base_of[cid]])["memo"]:
+            pass
+        cmp_ps += 1
+        if not same_on(["out", "val", "cberrs"], a, b):
+            rep.violation("Statistics with a collector that has been used before (ExprCnt %d) changes the result" % PRE,
+                          {"case": l, "without_the_collector": a, "with_used_collector": b}, found=True)
+    rep.cov["used_statistics_collector_pairs"] = cmp_ps
     # Memoize on left-recursive grammars (templates with -support-left-recursion): same success/failure and value
     # (error lists: known finding C08-MEMO-DISCARDED-ERRS, decided by the C08 check)
     n = ctx.q(150, 3000)
